@@ -40,3 +40,36 @@ Proof.
     + intros n cnt [E|[E|[]]]; inversion E; subst; eexists; split; reflexivity.
     + intros n [<-|[<-|[]]]; discriminate.
 Qed.
+
+(* the invariant of the history theorem holds of a concrete world, and a concrete history with faults is valid *)
+From Verif Require Import Calcium.CapProofs Calcium.NodeProofs Calcium.HistoryProofs.
+Example busy3_Inv : Inv busy3v.
+Proof.
+  constructor; [exact busy3_wf|exact busy3_use_ok| |].
+  - unfold busy3v, pnames; simpl. repeat constructor; simpl; intuition discriminate.
+  - intros y Hy. unfold busy3v in Hy; simpl in Hy. destruct Hy as [<-|[<-|[<-|[<-|[]]]]]; reflexivity.
+Qed.
+
+
+Definition history_example : list hstep :=
+  [ (OCreate 9 0 3 (50, 100)%Z (Some [(0%nat, 2%nat); (1%nat, 1%nat)]), Some 20%nat);
+    (ORealloc (mkWid 7 0 0) (50, 100)%Z, Some 8%nat);
+    (ORemove [mkWid 7 0 0; mkWid 9 1 0] true, Some 11%nat);
+    (OSetNode 1 None (Some (4096%Z, true)) None, Some 4%nat);
+    (ODissociate [mkWid 9 0 0], Some 6%nat);
+    (OAddNode 7 0 (400, 8192)%Z, Some 2%nat) ].
+
+Example history_example_valid : valid_hist busy3v history_example.
+Proof.
+  unfold history_example. cbn [valid_hist valid_step fst snd].
+  split.
+  - intros _. split.
+    + intros n i. (split; reflexivity).
+    + (split; [repeat constructor; simpl; intuition discriminate|]). split.
+      * (intros n cnt [E|[E|[]]]; inversion E; subst; eexists; split; reflexivity).
+      * (intros n [<-|[<-|[]]]; discriminate).
+  - (repeat split; try exact I). left; reflexivity.
+Qed.
+
+Example history_example_Inv : Inv (run_hist busy3v history_example).
+Proof. apply history_keeps_Inv; [exact busy3_Inv|exact history_example_valid]. Qed.
